@@ -1455,7 +1455,9 @@ func (c *compiler) compileArray(e *Array) error {
 	for i := range l {
 		if c.codes[pc+i].op != opfork ||
 			c.codes[pc+i*2+l].op != opconst ||
-			(i < l-1 && c.codes[pc+i*2+l+1].op != opjump) {
+			(i < l-1 && (c.codes[pc+i*2+l+1].op != opjump ||
+				// each element should be followed by a jump over the next one
+				c.codes[pc+i*2+l+1].v.(int) != pc+i*2+l+3)) {
 			return nil
 		}
 	}
